@@ -147,7 +147,21 @@ func mkVal(k kind, c, pub content, placement int, wrap func(cty.Value) cty.Value
 	case kNum:
 		v = num(c.n)
 	case kList:
-		v = cty.ListVal([]cty.Value{leaf(cty.StringVal(c.s1)), cty.StringVal(pub.s2)})
+		elems := []cty.Value{leaf(cty.StringVal(c.s1)), cty.StringVal(pub.s2)}
+		if placement == 0 && vf.Param("nulls", 0) == 1 {
+			// the secret list may also be empty or have a single element
+			switch vf.Concretize(c.n) {
+			case 0:
+				elems = nil
+			case 1:
+				elems = elems[:1]
+			}
+		}
+		if len(elems) == 0 {
+			v = cty.ListValEmpty(cty.String)
+		} else {
+			v = cty.ListVal(elems)
+		}
 	case kMap:
 		v = cty.MapVal(map[string]cty.Value{"a": leaf(cty.StringVal(c.s1)), "b": cty.StringVal(pub.s2)})
 	case kObj:
